@@ -18,17 +18,30 @@ and typed `int`), so it is proved with the explicit decidable hypothesis `InInt3
   under ISO C++ before 17 translation phase 1 replaces trigraphs: `str_roundtrip_trigraphs_partial`
   with the exact hypothesis "the string contains no trigraph", `str_trigraphs_counterexample`;
   what a `const char*` parameter receives: `cstr_roundtrip_partial` (no NUL), counterexample;
-* ints — `int_roundtrip_partial`, `int_value_partial`, `int_counterexample`, `int_huge_counterexample`;
-* floats — `float_roundtrip` over the whole grammar of `repr(float)`; `nonfinite_rejected`;
+* ints — `int_roundtrip_partial`, `int_value_partial`, `int_const_ok_partial`, `int_counterexample`,
+  `int_huge_counterexample`;
+* floats — `float_roundtrip`: every text of the grammar of `repr(float)` is a C++ `double` literal
+  of exactly the text's decimal value; `float_const_ok`: hence the literal rounds to the very
+  bits of the float, given `ReprFaithful` (the text `repr` printed rounds to the float — the one
+  fact trusted about CPython, an explicit decidable hypothesis); `nonfinite_rejected`;
 * bools, unsupported kinds — `bool_roundtrip`, `unsupported_rejected`;
-* names — `bank_roundtrip` (escaped: all strings), `names_verbatim_partial` over the booking/fill
-  lines regenerated from the three backends (names are copied verbatim there: hypothesis
-  `PlainName`), `names_counterexample`.
+* a constant as an operand — `nonneg_not_glued`, `str_not_glued`, `sub_negative_counterexample`
+  (`x - Constant(-5)` is emitted `(x--5)`);
+* names — `bank_roundtrip` (escaped: all strings, any surrounding text), `names_verbatim_partial`
+  over the booking/fill lines regenerated from the three backends (names are copied verbatim
+  there: hypothesis `PlainName`), `names_counterexample`; `book_lines_ok`, `name_slots_present`,
+  `escape_table_ok`, `escape_shape_ok` are the obligations over the regenerated tables.
 
-Trusted, not proved here: CPython's `repr(float)` (a float is given to the model by the text
-`repr` prints; that the text rounds back to the float is checked by exact arithmetic on every
-sampled float by the harness, `roundsTo`), the C++ lexing rules as transcribed in `Model.lean`
-(validated against g++ by the harness), UTF-8 as both Python's output and g++'s input encoding.
+Trusted, not proved here: CPython's `repr(float)` (hypothesis `ReprFaithful`, evaluated by exact
+integer arithmetic on every sampled float by the harness), the C++ lexing rules as transcribed in
+`Model.lean` (validated against g++ by the harness on the emitted literals and on hand-written
+ones), that the C++ compiler rounds a decimal literal to the nearest double (g++ echo, bit for
+bit), UTF-8 as both Python's output and g++'s input encoding.
+
+Counterexample theorems over the REGENERATED tables are stated so that they stay checkable when
+the defect is repaired (a disjunct / a guard on the table), otherwise a correct fix would break
+the build; those over the hand model (`int_…`, `sub_negative_…`) describe the model and have to be
+retired together with the model when the code is repaired.
 -/
 import FaxVerif.C18.Proofs
 namespace FaxVerif.C18
